@@ -165,17 +165,17 @@ theorem dump_trace_args_lines : ∀ (fs : List (Nat × Int × Int)) (st : Int ×
       rw [dump_trace_args_lines rest]
       simp
 
-/-- **dump_trace_ret_heart_beat** — what the return value of `dump_trace` is (used by `fatal` for "in heart beat of").
-When the driver itself calls `heart_beat` (outermost frame, opened from an empty control stack while NO object is
-current — `call_heart_beat` clears `current_object` after every call) and that function calls on, `dump_trace` returns 0:
-the name is taken from `p->ob`, the object register saved by the CALLER of `heart_beat`, not from `p[1].ob`.
-(Recorded as an observation: the only user is the diagnostic line of `fatal`.) -/
-theorem dump_trace_ret_heart_beat (w : World) (idx : Nat) (hbRegs inner : Regs) (e' : CsEntry)
-    (hname : w.fnName hbRegs.prog idx = "heart_beat") (hp : inner.prog ≠ "-")
-    (he' : e'.prog = hbRegs.prog) :
-    dumpTraceRet w { cs := [⟨frameFunction, idx, "-", "-", -1⟩, e'], cur := inner } = "0" := by
+/-- **dump_trace_ret_heart_beat** — the return value of `dump_trace` (used by `fatal` for "in heart beat of").
+When the driver itself calls `heart_beat` of object `ob` (outermost frame, opened from an empty control stack while no
+object is current) and that function has called on (any frame `e'` whose saved registers are those of the `heart_beat`
+frame), `dump_trace` returns the name of `ob`.  (Before the fix it read `p->ob`, the caller's object, and returned 0
+here: `NV.C18.heart_beat_ret_before_fix`.) -/
+theorem dump_trace_ret_heart_beat (w : World) (idx : Nat) (hbProg hbOb : String) (inner : Regs) (e' : CsEntry)
+    (hname : w.fnName hbProg idx = "heart_beat") (hp : inner.prog ≠ "-")
+    (he' : e'.prog = hbProg) (hob : e'.ob = hbOb) (hnn : hbOb ≠ "-") :
+    dumpTraceRet w { cs := [⟨frameFunction, idx, "-", "-", -1⟩, e'], cur := inner } = hbOb := by
   have h0 : frameFunction % (frameMask + 1) = frameFunction := by decide
-  simp [dumpTraceRet, hp, dtRetGo, h0, he', hname]
+  simp [dumpTraceRet, hp, dtRetGo, h0, he', hob, hname, hnn]
 
 /-- non-vacuity: `go` (slot 2 of m.c) calls `f1` through a function literal inside a catch; four lines, innermost
 last; no table is known for these programs, so the location is `?` -/
